@@ -16,7 +16,7 @@
 EXTENDS Integers, Sequences, FiniteSets
 CONSTANTS N, Writers, PieceLen, LastLen
 Pieces == 1..N
-Classes == {"good", "corrupt", "short", "long"}
+Classes == {"good", "corrupt", "short", "long", "statusfail"}   \* statusfail: right bytes, but the write of the piece's status byte fails
 VARIABLES pstate,     \* [Pieces -> {"empty","dirty","complete"}]
           region,     \* [Pieces -> {"zero","good","bad"}]   what the file holds
           ncomplete, committed,
@@ -52,7 +52,7 @@ WriteRes(w) == IF wr[w].c = "good" THEN "written" ELSE "error"
 Write(w) ==
   /\ wr[w].pc = "writing"
   /\ LET i == wr[w].i good == wr[w].c = "good" IN
-     /\ region' = [region EXCEPT ![i] = IF good THEN "good" ELSE "bad"]
+     /\ region' = [region EXCEPT ![i] = IF good \/ wr[w].c = "statusfail" THEN "good" ELSE "bad"]
      /\ pstate' = [pstate EXCEPT ![i] = IF good THEN "complete" ELSE "empty"]
      /\ ncomplete' = IF good THEN ncomplete + 1 ELSE ncomplete
      /\ wr' = [wr EXCEPT ![w] = IF good THEN [@ EXCEPT !.pc = "written"] ELSE Idle]
